@@ -97,7 +97,7 @@ def segment(toks, prefix, out, translated_lines, fnnames):
             else: out.append(prefix + atxt + htxt + ' ;')
             i = j + 1; continue
         k = match_close(toks, j)
-        is_test = any('cfg(test)' in c for c in cattrs) or (kw == 'mod' and len(header) >= 2 and header[-1].val in ('tests', 'test'))
+        is_test = any(c.replace(' ', '') == '#[cfg(test)]' for c in cattrs)
         if is_test:
             pass
         elif kw in ('impl', 'trait', 'mod'):
